@@ -272,6 +272,7 @@ class Ref:
 
     def __init__(self, tree, start=None):
         self.exp = {}
+        self.seen_at = {}           # the context handed to Write / Cache nodes
         self.dict_rendered = False
         self.counter = 0
         self.top = None
@@ -311,6 +312,7 @@ class Ref:
         if k in ("write", "cache"):
             tpl = parse_template(node["fmt"])
             rec = {"k": k}
+            self.seen_at[idx] = copy.deepcopy(ctx)
             if tpl is None:
                 rec["name"] = node["fmt"]
             else:
@@ -767,20 +769,20 @@ def _fresh_names(tree, ref):
 
 
 def _neutral_run(tree, ref, make_flow):
-    """the no-leak reference run: the same tree WITHOUT its SetContext elements (every static context is empty),
+    """the no-leak reference run: the same tree with its SetContext elements replaced by inert ones (every static context is empty),
     in which each UpdateContextFromStatic and MakeFilename is handed, by hand, the reference prefix fold of its
     position in the original tree; then the same flow"""
     def strip(node):
         if "c" in node:
-            return dict(node, c=[strip(c) for c in node["c"] if c["k"] != "set"])
-        return node
-    kept = [i for i, nd in enumerate(preorder(tree)) if nd["k"] != "set"]
+            return dict(node, c=[strip(c) for c in node["c"]])
+        # a StoreContext stands for every SetContext: no data, no contribution to the context
+        return {"k": "store"} if node["k"] == "set" else node
     t2 = strip(tree)
     objs = []
     top = build(t2, objs)
     for i2, (nd, o) in enumerate(zip(preorder(t2), objs)):
         if nd["k"] in ("ucfs", "mkf"):
-            seen = ref.exp[kept[i2]]["seen"]
+            seen = ref.exp[i2]["seen"]
             if seen:
                 o._set_context(copy.deepcopy(seen))
     gen = top() if tree["kind"] == "Source" else top.run(make_flow())
@@ -896,16 +898,21 @@ def paths(tree, prefix=()):
             yield p
 
 
-def _cmp(kind, idx, node, exp, got):
-    for field in ("seen", "name", "get"):
+def _strip_keys(d, prefix):
+    return {k: v for k, v in d.items() if not k.startswith(prefix)} if isinstance(d, dict) else d
+
+
+def _cmp(kind, idx, node, exp, got, fields=("seen", "name", "get")):
+    for field in fields:
         if field in exp:
             e, g = exp[field], got.get(field)
             if field == "get" and isinstance(e, dict) and set(e) == {"e"}:
+                keys = exp.get("alts") or [e["e"]]
                 if not (isinstance(g, dict) and g.get("cls") == "LenaKeyError"):
                     return (f"node #{idx} {node}: the key '{e['e']}' cannot be resolved in the prefix, "
                             f"_get_context must raise LenaKeyError naming it, got {g}")
-                if not re.search(r"(?<![\w.])" + re.escape(e["e"]) + r"(?![\w.])", g.get("msg", "")):
-                    return f"node #{idx} {node}: LenaKeyError does not name the missing key '{e['e']}': {g.get('msg')}"
+                if not any(re.search(r"(?<![\w.])" + re.escape(k) + r"(?![\w.])", g.get("msg", "")) for k in keys):
+                    return f"node #{idx} {node}: LenaKeyError does not name a missing key {keys}: {g.get('msg')}"
                 continue
             if e != g:
                 what = {"seen": "static context received", "name": "derived name", "get": "exported context"}[field]
@@ -918,29 +925,75 @@ def oracle(case, res):
     ref = Ref(tree)
     nodes = preorder(tree)
     recs = res["nodes"]
-    # (1) prefix fold, Split exports the intersection, unresolved keys surface
+    hostile = [i for i, nd in enumerate(nodes) if nd["k"] in ("hset", "hrun")]
+    toks = tokens(tree) if hostile else {}
+    tok_of = [toks.get(p) for p in paths(tree)] if hostile else []
+    # (1) prefix fold, Split exports the intersection, unresolved keys surface.  The names of MakeFilename / Write /
+    # Cache are compared with what a fresh element of the same class derives from the reference fold.
+    fresh = res.get("fresh_names") or {}
     for idx, (node, got) in enumerate(zip(nodes, recs)):
         exp = ref.exp.get(idx)
         if exp is None:
             continue
-        msg = _cmp("fold", idx, node, exp, got)
+        if hostile and node["k"] in ("ucfs", "mkf"):
+            # an element that was handed the very dictionary a hostile element later updates in place may show the
+            # hostile key (lena hands one object to consecutive elements); nothing else may
+            mine = ["hz%d" % h for h in hostile if nodes[h]["k"] == "hset" and tok_of[h] == tok_of[idx]]
+            g2 = dict(got)
+            e2 = dict(exp)
+            for fld in ("seen",):
+                if isinstance(g2.get(fld), dict):
+                    g2[fld] = {k: v for k, v in g2[fld].items() if k not in mine}
+                    e2[fld] = {k: v for k, v in e2[fld].items() if k not in mine}
+            msg = _cmp("fold", idx, node, e2, g2, fields=("seen",))
+        elif node["k"] in ("mkf", "write", "cache") and not hostile:
+            msg = _cmp("fold", idx, node, exp, got, fields=("seen",))
+            if msg is None and str(idx) in fresh and fresh[str(idx)] != got.get("name"):
+                msg = (f"node #{idx} {node}: derived name is {got.get('name')}, a fresh element handed the prefix fold "
+                       f"derives {fresh[str(idx)]}")
+        else:
+            msg = _cmp("fold", idx, node, exp, got, fields=("seen", "get") if hostile else ("seen", "name", "get"))
         if msg:
             return msg
-    # (2) run-time contexts: static context enters only through UpdateContextFromStatic / derived names
-    if res.get("out") is not None and ref.top[0] == "ok":
-        flow = [(i, copy.deepcopy(c)) for i, c in enumerate(case.get("flow") or [])]
-        exp_out, _ = ref_run(tree, ref.exp, 0, flow)
-        got = res["out"]
-        if "e" in got:
-            return f"running the flow raised {got}"
-        if [[d, c] for d, c in exp_out] != [list(x) for x in got["r"]]:
-            return f"run-time result {got['r']} differs from {[[d, c] for d, c in exp_out]} (static context leaked or was lost)"
+    # (1b) what _get_context() returns belongs to the caller: updating it in place changes nothing
+    if res.get("nodes_scribbled") is not None:
+        for idx, (node, before, aft) in enumerate(zip(nodes, recs, res["nodes_scribbled"])):
+            if before != aft:
+                return (f"node #{idx} {node}: updating in place the dictionaries returned by _get_context() changed what "
+                        f"it holds: before {before}, after {aft}")
+    # (2) no leak: the flow is the one of the tree without its SetContext elements in which every
+    # UpdateContextFromStatic / MakeFilename was handed the prefix fold of its position
+    got = res.get("out")
+    if got is not None and "e" in got and not hostile:
+        return f"running the flow raised {got}"
+    if got is not None and res.get("neutral") is not None:
+        if res["neutral"] != got:
+            return (f"run-time result {got} differs from {res['neutral']}, the result of the same tree without its "
+                    f"SetContext elements whose UpdateContextFromStatic / MakeFilename were handed the prefix fold "
+                    f"(static context leaked or was lost)")
     # (2b) run-time values never leak back: after the run every element holds what it held before
     if res.get("nodes_after") is not None:
         for idx, (node, before, aft) in enumerate(zip(nodes, recs, res["nodes_after"])):
+            if hostile:
+                # a hostile element that updates at run time the dictionary it was handed: the elements that were
+                # handed the same object show it (hr keys), and the sequences whose _static_context it is
+                shared = any(nodes[h]["k"] == "hrun" and tok_of[h] == tok_of[idx] for h in hostile)
+                if node["k"] in ("seq", "split") or (node["k"] in ("ucfs", "mkf") and shared):
+                    before = {k: _strip_keys(v, "hr") for k, v in before.items()}
+                    aft = {k: _strip_keys(v, "hr") for k, v in aft.items()}
             if before != aft:
                 return (f"node #{idx} {node}: static state changed by running the flow {case.get('flow')}: "
                         f"before {before}, after {aft}")
+    # (2c) an enclosing sequence delivers a context: the fold started from it
+    if res.get("redelivered") is not None and len(case["redeliver"]) == 1 and not hostile:
+        ref2 = Ref(tree, start=case["redeliver"][0])
+        for idx, (node, got2) in enumerate(zip(nodes, res["redelivered"]["nodes"])):
+            exp = ref2.exp.get(idx)
+            if exp is None:
+                continue
+            msg = _cmp("fold", idx, node, exp, got2, fields=("seen", "get"))
+            if msg:
+                return f"after _set_context({case['redeliver'][0]}) of the whole tree: " + msg
     # (3) causality: equal cones => equal observations, across the tree and its variants
     if case.get("variants"):
         table = {}
@@ -980,7 +1033,7 @@ def alphabet(case):
         for t in node_templates(node):
             for f in (parse_template(t) or [])[1::2]:
                 acc.update(p for p in f.split(".") if p)
-    for c in (case.get("flow") or []) + SRC_FLOW:
+    for c in (case.get("flow") or []) + SRC_FLOW + (case.get("redeliver") or []):
         _ctx_keys(c, acc)
     return sorted(acc)
 
@@ -1023,16 +1076,28 @@ def enc_tree(node, ix):
     return _enc_leaf(node, ix)
 
 
+def has_hostile(tree):
+    return any(nd["k"] in ("hset", "hrun") for nd in preorder(tree))
+
+
 def model_requests(case):
+    if has_hostile(case["tree"]):
+        # an element that updates in place the dictionary it is handed is outside the value model (and outside the
+        # property's leaves): such trees are judged by the oracle alone
+        return []
     names = alphabet(case)
     ix = {nm: i for i, nm in enumerate(names)}
-    return [{"op": "build", "names": names, "out": [ix[k] for k in OUT_KEYS], "tree": enc_tree(case["tree"], ix),
-             "flow": case.get("flow"), "src": SRC_FLOW}]
+    req = {"op": "build", "names": names, "out": [ix[k] for k in OUT_KEYS], "tree": enc_tree(case["tree"], ix),
+           "flow": case.get("flow"), "src": SRC_FLOW}
+    if case.get("redeliver"):
+        req["redeliver"] = case["redeliver"]
+    return [req]
 
 
 def _strip(node, rec):
     """the implementation's record of a node in the vocabulary of the model's reply"""
     rec = dict(rec)
+    rec.pop("alts", None)
     if isinstance(rec.get("get"), dict) and "cls" in rec["get"]:
         g = rec["get"]
         rec["get"] = {"e": g["e"]} if g["cls"] == "LenaKeyError" else {"other": g["cls"]}
@@ -1041,7 +1106,33 @@ def _strip(node, rec):
     return rec
 
 
+def _id_check(tree, ids, toks):
+    """identity claims: two different elements may hold the same dictionary object (or share a sub-dictionary)
+    only if the model hands them the same token — StoreContext and SetContext never share, elements below different
+    branches of a Split never share (`split_branches_independent`)"""
+    nodes = preorder(tree)
+    owner = {}
+    for i, cls in enumerate(ids):
+        for c in cls:
+            owner.setdefault(c, []).append(i)
+    for c, who in owner.items():
+        for a in who:
+            for b in who:
+                if a >= b:
+                    continue
+                ka, kb = nodes[a]["k"], nodes[b]["k"]
+                if "store" in (ka, kb) or "set" in (ka, kb):
+                    return (f"nodes #{a} {nodes[a]} and #{b} {nodes[b]} hold the same dictionary object: a "
+                            f"{'StoreContext' if 'store' in (ka, kb) else 'SetContext'} keeps a private copy")
+                if ka in ("ucfs", "mkf") and kb in ("ucfs", "mkf") and toks[a] != toks[b]:
+                    return (f"nodes #{a} {nodes[a]} and #{b} {nodes[b]} hold the same dictionary object but the model "
+                            f"hands them different objects ({toks[a]} / {toks[b]})")
+    return None
+
+
 def compare(case, res, replies):
+    if not replies:
+        return None
     m = replies[0]
     if "err" in m:
         return f"model driver error: {m['err']}"
@@ -1078,10 +1169,26 @@ def compare(case, res, replies):
             return f"node #{i}: model spec (ctxAt/leafFinal/fold) {sp} vs reference fold {_strip(node, exp)}"
         if sp != m["nodes"][i]:
             return f"node #{i}: model spec {sp} vs model protocol {m['nodes'][i]} (seen_is_prefix_fold)"
-    for pth, cn in zip(paths(tree), m["cones"]):
+    pytok = tokens(tree)
+    for pth, cn, tk in zip(paths(tree), m["cones"], m["toks"]):
         py = [[st[0], len(st[1])] if st[0] == "seq" else ["split"] for st in cone(tree, pth)[0]]
         if py != cn:
             return f"path {pth}: model cone {cn} vs harness cone {py}"
+        if [list(pytok[pth][0]), pytok[pth][1]] != tk:
+            return f"path {pth}: model token {tk} vs harness token {pytok[pth]}"
+    if res.get("ids") is not None:
+        msg = _id_check(tree, res["ids"], m["toks"])
+        if msg:
+            return msg
+    if res.get("redelivered") is not None:
+        mr = m.get("redelivered") or {}
+        gotr = [_strip(nd, r) for nd, r in zip(nodes, res["redelivered"]["nodes"])]
+        if mr.get("nodes") != gotr or mr.get("raised") != res["redelivered"]["raised"]:
+            for i, (a, b) in enumerate(zip(gotr, mr.get("nodes") or [])):
+                if a != b:
+                    return f"after _set_context({case['redeliver']}): node #{i}: impl {a} vs model (setCtx) {b}"
+            return (f"after _set_context({case['redeliver']}): raised impl {res['redelivered']['raised']} vs model "
+                    f"{mr.get('raised')}")
     if res.get("out") is not None:
         o = res["out"]
         mo = m.get("out") or {}
@@ -1090,7 +1197,7 @@ def compare(case, res, replies):
         got_r = [list(x) for x in o["r"]]
         if mo.get("r") != got_r:
             return f"run: impl {got_r} vs model (run) {mo}"
-        if ref.top[0] == "ok":
+        if consumers_defined(tree, ref.exp):
             flow = [(i, copy.deepcopy(c)) for i, c in enumerate(case.get("flow") or [])]
             exp_out = [[d, c] for d, c in ref_run(tree, ref.exp, 0, flow)[0]]
             if mo.get("ref") != exp_out:
@@ -1112,9 +1219,9 @@ def compare(case, res, replies):
 # ------------------------------------------------------------------------------------------------
 # generators
 
-KEYS = ["a", "b", "c", "a.x", "a.y", "b.y"]
+KEYS = ["a", "b", "c", "a.x", "a.y", "b.y", "a.x.y", "a.x.z"]
 CONSTS = [1, 2, "s", "t", 0, -3]
-FIELDS = ["a", "b", "c", "a.x", "b.y", "zz", "a.zz"]
+FIELDS = ["a", "b", "c", "a.x", "b.y", "zz", "a.zz", "a.x.y"]
 
 
 def _tpl(rng):
@@ -1170,6 +1277,8 @@ def rand_leaf(rng, pformat=0.3):
                 ("c_" + _tpl(rng) + ".pkl" if rng.random() < 0.9 else "c.pkl")}
     if r < 0.96:
         return {"k": "mut", "key": rng.choice(KEYS), "val": rng.choice(CONSTS)}
+    if r < 0.975:
+        return {"k": rng.choice(["hset", "hrun"])}
     return {"k": "data"}
 
 
@@ -1204,11 +1313,13 @@ def normalise(tree):
     """A Split all of whose branches are of fill/compute (fill/request) type has `fill` and `compute` (`request`)
     itself, so that a tuple containing it would be taken for a FillComputeSeq with that Split as its element: such
     Splits get one more, empty, Sequence branch (in place)."""
-    for nd in preorder(tree):
-        if nd["k"] == "split" and nd["c"]:
-            types = set(_branch_type(b) for b in nd["c"])
-            if types in ({"fc"}, {"fr"}):
-                nd["c"].append({"k": "seq", "kind": "Sequence", "c": []})
+    for parent in preorder(tree):
+        if parent["k"] == "seq" and parent["kind"] in ("tuple", "FillComputeSeq", "FillRequestSeq"):
+            for nd in parent["c"]:
+                if nd["k"] == "split" and nd["c"]:
+                    types = set(_branch_type(b) for b in nd["c"])
+                    if types in ({"fc"}, {"fr"}):
+                        nd["c"].append({"k": "seq", "kind": "Sequence", "c": []})
     return tree
 
 
@@ -1322,26 +1433,28 @@ def _renders_dict(tree, flow=None):
     protocol, or when `flow` is run (outside the generated domain: the model does not describe `str(dict)`).
     Conservative and syntactic: a field that is a proper prefix of a SetContext key, or (for MakeFilename, which
     also formats from the run-time context) a dictionary-valued path of a flow context."""
-    dicts, fields, mkf_fields = set(), set(), set()
+    dicts, mkf_fields = set(), set()
     for nd in preorder(tree):
+        # in every pass an element sees only what precedes it in document order: a field can resolve to a
+        # dictionary only if an EARLIER SetContext (or hostile element) made one at that path
+        for t in node_templates(nd):
+            for f in (parse_template(t) or [])[1::2]:
+                f = ".".join(p for p in f.split(".") if p)
+                if f == "" or f in dicts:
+                    return True
+                if nd["k"] == "mkf":
+                    mkf_fields.add(f)
         if nd["k"] == "set":
             parts = nd["key"].split(".")
             for i in range(1, len(parts)):
                 dicts.add(".".join(parts[:i]))
-        for t in node_templates(nd):
-            for f in (parse_template(t) or [])[1::2]:
-                f = ".".join(p for p in f.split(".") if p)
-                fields.add(f)
-                if nd["k"] == "mkf":
-                    mkf_fields.add(f)
-    if "" in fields or fields & dicts:
-        return True
     if flow is not None:
         rt = set()
         for c in list(flow) + SRC_FLOW:
             _dict_paths(c, "", rt)
         rt.discard("")
         rt.add("output")
+        rt |= dicts                     # an UpdateContextFromStatic may bring any static dictionary into the flow
         for nd in preorder(tree):
             if nd["k"] == "mut":          # a run-time mutator creates the dictionaries above its key
                 parts = nd["key"].split(".")
@@ -1351,7 +1464,7 @@ def _renders_dict(tree, flow=None):
             return True
         try:
             ref = Ref(tree)
-            if ref.top[0] == "ok":
+            if consumers_defined(tree, ref.exp):
                 ref_run(tree, ref.exp, 0, [(i, copy.deepcopy(c)) for i, c in enumerate(flow)])
         except (DictRendered, Unmodelled):
             return True
@@ -1361,7 +1474,24 @@ def _renders_dict(tree, flow=None):
 FLOWS = [[{"r": 0}], [{"r": 0}, {"a": "rt", "r": 1}], [], [{"output": {"filename": "given"}}, {"b": {"y": 7}}],
          [{"output": {"prefix": "P_", "suffix": "_S", "x": 1}, "c": "rc"}, {"output": {"suffix": ""}, "a": {"x": 5}}],
          [{}, {}, {}], [{"r": 0}, {"c": "rc"}, {"r": 2}],
-         [{}, {"output": {"prefix": "R_", "suffix": "_R"}}, {"c": "rc"}]]
+         [{}, {"output": {"prefix": "R_", "suffix": "_R"}}, {"c": "rc"}],
+         [None, {"a": {"x": {"z": 3}}}, None], [None, {}, {"r": 1}]]
+
+
+REDELIVER = [{"a": 5}, {"zz": "q"}, {"a": {"x": 7}, "c": 0}, {"b": "o"}, {"a": {"zz": 1}}]
+
+
+def _redeliver_ok(tree, ctxs):
+    """no formatting field of the tree names a dictionary of the delivered contexts (dictionary rendering)"""
+    dp = set()
+    for c in ctxs:
+        _dict_paths(c, "", dp)
+    for nd in preorder(tree):
+        for t in node_templates(nd):
+            for f in (parse_template(t) or [])[1::2]:
+                if ".".join(p for p in f.split(".") if p) in dp:
+                    return False
+    return True
 
 
 def _flow_for(tree, flow):
@@ -1369,6 +1499,9 @@ def _flow_for(tree, flow):
     flow would make an element render a dictionary"""
     if sum(1 for nd in preorder(tree) if nd["k"] == "cache") > 1 or static_only(tree):
         return None
+    if any(c is None for c in flow) and any(nd["k"] == "ucfs" for nd in preorder(tree)):
+        # UpdateContextFromStatic.run unpacks `data, context = val`: bare data cannot pass it
+        flow = [c for c in flow if c is not None]
     if _renders_dict(tree, flow):
         return None
     return flow
@@ -1385,12 +1518,20 @@ def rand_case(rng, depth=3, pformat=0.3, nvariants=2):
             case["precache"], case["flow"] = True, None
         ps = [p for p in paths(tree) if cone(tree, p)[1]["k"] in PROBES]
         vs = []
-        if ps and nvariants:
+        if ps and nvariants and not has_hostile(tree):
             for _ in range(nvariants):
                 v = normalise(mutate_after(rng, tree, rng.choice(ps), pformat))
-                if not _renders_dict(v):
+                # (a hostile element may legitimately reach the elements that were handed the same dictionary: the
+                # causality comparison is made between trees of the property's own leaves)
+                if not _renders_dict(v) and not has_hostile(v):
                     vs.append(v)
         case["variants"] = vs
+        if rng.random() < 0.2 and not has_hostile(tree):
+            # an enclosing sequence delivers a context to the whole tree (twice: any two contexts, also ones that no
+            # nesting could produce — that exercises the stale-_static_context branches of the transcription)
+            rd = [copy.deepcopy(rng.choice(REDELIVER)) for _ in range(1 if rng.random() < 0.6 else 2)]
+            if _redeliver_ok(tree, rd):
+                case["redeliver"] = rd
         return case
     raise RuntimeError("generator: could not avoid dictionary rendering")
 
@@ -1456,6 +1597,48 @@ def seqtype_cases():
             t = {"k": "seq", "kind": "Sequence", "c": [{"k": "split", "c": [{"k": "seq", "kind": kind, "c": copy.deepcopy(cs)}]},
                                                        {"k": "store"}]}
             out.append({"tree": t, "flow": None, "variants": [], "precache": True})
+    return out
+
+
+def hostile_cases():
+    """Directed family for the copies the statement and its mechanism name: a hostile element (one that updates in
+    place the dictionary it is handed, at construction or while the flow runs) is placed where only a missing copy
+    could let it reach another element: in a Split branch next to a branch with probes and after probes of the
+    enclosing sequence (LenaSplit copies per branch), after a StoreContext (it copies), directly after a SetContext
+    and after a nested Sequence (their _get_context returns copies), below nested keys of depth 1-3 (deep copies)."""
+    out = []
+    for key in ("a", "a.x", "a.x.y"):
+        head = [{"k": "set", "key": key, "val": 1}]
+        probes = [{"k": "ucfs"}, {"k": "store"}, {"k": "mkf", "fmt": "n_{{%s}}" % key}]
+        for h in ("hset", "hrun"):
+            H = {"k": h}
+            shapes = [
+                head + probes + [{"k": "split", "c": [{"k": "seq", "kind": "Sequence", "c": [H, {"k": "store"}]},
+                                                      {"k": "seq", "kind": "Sequence", "c": [{"k": "ucfs"}, {"k": "store"}]}]},
+                                 {"k": "store"}],
+                head + [{"k": "split", "c": [{"k": "seq", "kind": "Sequence", "c": [{"k": "ucfs"}]},
+                                             {"k": "seq", "kind": "tuple", "c": [H]}]}, {"k": "ucfs"}],
+                head + [{"k": "store"}, H, {"k": "store"}],
+                head + [H, {"k": "store"}],
+                [{"k": "seq", "kind": "Sequence", "c": head + [{"k": "ucfs"}]}, H, {"k": "ucfs"}],
+                [{"k": "seq", "kind": "Sequence", "c": head + [{"k": "seq", "kind": "Sequence", "c": [{"k": "store"}]}]}, H],
+                head + [{"k": "ucfs"}, {"k": "set", "key": "b", "val": 2}, H, {"k": "mkf", "fmt": "{{b}}"}],
+            ]
+            for cs in shapes:
+                for kind, flow in (("Sequence", FLOWS[5]), ("Source", [])):
+                    t = {"k": "seq", "kind": kind, "c": ([{"k": "src"}] if kind == "Source" else []) + copy.deepcopy(cs)}
+                    out.append({"tree": t, "flow": flow, "variants": []})
+    return out
+
+
+def degenerate_split_cases():
+    """Splits without any branch that has static context: `Split([])`, only bare fill/compute elements (see the
+    recorded judgement in ASSUMPTIONS: they export the empty intersection {})"""
+    out = []
+    for bs in ([], [{"k": "fc"}], [{"k": "fc"}, {"k": "fr"}], [{"k": "fc"}, {"k": "seq", "kind": "Sequence", "c": []}]):
+        for pre in ([], [{"k": "set", "key": "a", "val": 1}]):
+            t = {"k": "seq", "kind": "Sequence", "c": pre + [{"k": "split", "c": copy.deepcopy(bs)}, {"k": "store"}, {"k": "ucfs"}]}
+            out.append({"tree": t, "flow": _flow_for(t, FLOWS[1]), "variants": []})
     return out
 
 
@@ -1601,6 +1784,8 @@ def gen_cases(ctx):
     yield from alias_cases()
     yield from seqtype_cases()
     yield from output_cases()
+    yield from hostile_cases()
+    yield from degenerate_split_cases()
     if ctx.tier == "quick":
         yield from exhaustive_cases(2, 2, EX_LEAVES + EX_LEAVES_MORE, source=True)
         yield from sampled_cases(rng, 3, 2, EX_LEAVES, 6000)
